@@ -10,17 +10,21 @@ use crate::{
 
 #[derive(Copy, Clone)]
 pub(crate) struct SymmetricStateData {
-    h:       [u8; MAXHASHLEN],
-    ck:      [u8; MAXHASHLEN],
-    has_key: bool,
+    h:            [u8; MAXHASHLEN],
+    ck:           [u8; MAXHASHLEN],
+    has_key:      bool,
+    cipher_key:   Option<[u8; CIPHERKEYLEN]>,
+    cipher_nonce: u64,
 }
 
 impl Default for SymmetricStateData {
     fn default() -> Self {
         SymmetricStateData {
-            h:       [0_u8; MAXHASHLEN],
-            ck:      [0_u8; MAXHASHLEN],
-            has_key: false,
+            h:            [0_u8; MAXHASHLEN],
+            ck:           [0_u8; MAXHASHLEN],
+            has_key:      false,
+            cipher_key:   None,
+            cipher_nonce: 0,
         }
     }
 }
@@ -66,6 +70,7 @@ impl SymmetricState {
 
         self.inner.ck = hkdf_output.0;
         self.cipherstate.set(&cipher_key, 0);
+        self.inner.cipher_key = Some(cipher_key);
         self.inner.has_key = true;
     }
 
@@ -95,6 +100,7 @@ impl SymmetricState {
         let mut cipher_key = [0_u8; CIPHERKEYLEN];
         cipher_key.copy_from_slice(&hkdf_output.2[..CIPHERKEYLEN]);
         self.cipherstate.set(&cipher_key, 0);
+        self.inner.cipher_key = Some(cipher_key);
     }
 
     pub fn has_key(&self) -> bool {
@@ -151,11 +157,16 @@ impl SymmetricState {
     }
 
     pub(crate) fn checkpoint(&mut self) -> SymmetricStateData {
+        self.inner.cipher_nonce = self.cipherstate.nonce();
         self.inner
     }
 
     pub(crate) fn restore(&mut self, checkpoint: SymmetricStateData) {
         self.inner = checkpoint;
+        // The cipher's key and nonce are part of the state a failed call must not change.
+        if let Some(key) = checkpoint.cipher_key {
+            self.cipherstate.set(&key, checkpoint.cipher_nonce);
+        }
     }
 
     pub fn handshake_hash(&self) -> &[u8] {
